@@ -45,6 +45,7 @@ import (
 	"github.com/karagenc/socket.io-go/engine.io/parser"
 	"nhooyr.io/websocket"
 
+	"sioverif/internal/proxy"
 	"sioverif/internal/rig"
 	"sioverif/internal/vk"
 )
@@ -930,9 +931,48 @@ func liveTrial(cn *canary, sp *spec) *result {
 			srv.Close()
 		}()
 	}()
-	c, err := eio.Dial(srv.URL, cliEP.callbacks(), &eio.ClientConfig{
+	dialURL := srv.URL
+	if sp.mode == "upgrading" {
+		// live peer, upgrade straddling a heartbeat: the websocket connection of the upgrade is held back and then
+		// slowed (20 ms per hop) so that the UPGRADE packet is on its way when the server's first PING is due;
+		// the server streams messages around that instant, so the client's last poll is answered at once and
+		// the PING is left sitting in the polling queue at the swap. sp.phase selects the lead (70..130 ms).
+		px, perr := proxy.New(srv.Addr)
+		if perr != nil {
+			res.incon = "proxy: " + perr.Error()
+			return res
+		}
+		defer px.Close()
+		lead := time.Duration(70+10*sp.phase) * time.Millisecond
+		px.OnConn = func(pc *proxy.Conn) {
+			if !pc.IsWS() {
+				return
+			}
+			pc.SetStall(true)
+			go func() {
+				ev.waitFor("est", 10*time.Second)
+				e0, _ := ev.when("est")
+				sleepUntil(e0.Add(sp.pi-lead), stop)
+				pc.SetDelay(20 * time.Millisecond)
+				pc.SetStall(false)
+			}()
+		}
+		dialURL = px.URL("/engine.io/")
+		go func() {
+			ev.waitFor("est", 10*time.Second)
+			e0, _ := ev.when("est")
+			sleepUntil(e0.Add(sp.pi-300*time.Millisecond), stop)
+			end := e0.Add(sp.pi + 100*time.Millisecond)
+			for time.Now().Before(end) && !stopped() {
+				serverSend()
+				time.Sleep(time.Millisecond)
+			}
+		}()
+	}
+	c, err := eio.Dial(dialURL, cliEP.callbacks(), &eio.ClientConfig{
 		Transports:           sp.transports(),
 		UpgradeDone:          func(string) { ev.signal("updone") },
+		UpgradeTimeout:       sp.pi + 2*time.Second,
 		WebSocketDialOptions: newDialOptions(),
 	})
 	if err != nil {
@@ -1046,7 +1086,7 @@ func liveTrial(cn *canary, sp *spec) *result {
 			res.incon = fmt.Sprintf("only %d pings / %d pongs seen in %v", len(cs.beats), len(ss.beats), window)
 			return res
 		}
-		if sp.mode == "upgraded" && !ev.has("updone") {
+		if (sp.mode == "upgraded" || sp.mode == "upgrading") && !ev.has("updone") {
 			res.incon = "upgrade did not happen"
 			return res
 		}
@@ -1083,7 +1123,7 @@ func main() {
 	run.Rule("dead-peer trials = (pingInterval, pingTimeout) x transport {polling, websocket, upgraded, upgrading} x black-holed direction {both, c2s, s2c} x placement phase " +
 		"(time anchored: before / just before a ping; event anchored: inside the client's ping callback before the pong leaves, inside the server's pong callback; upgrading: at the ws upgrade request, " +
 		"mid-handshake, at the client's UpgradeDone, at the server's transport switch, each also with the upgrade held back until the first ping), each run against a fresh real server + real client through the fault proxy; " +
-		"live-peer trials = (pingInterval, pingTimeout) x transport x traffic {idle, c2s every 0.37 pi, s2c, both 0.37/0.61, locked onto the ping/pong instants, dense server stream (one message per 150 us) around every ping}; " +
+		"live-peer trials = (pingInterval, pingTimeout) x transport x traffic {idle, c2s every 0.37 pi, s2c, both 0.37/0.61, locked onto the ping/pong instants, dense server stream (one message per 150 us) around every ping}; live peers whose polling->websocket upgrade is timed so that the first PING is queued on polling at the swap (lead swept 70..130 ms); " +
 		"distinct = kind/transport/direction-or-traffic/pi,pt/phase/outcome class (close reason and on-time/late per side)")
 	run.Assume("a side is 'closed' when its OnClose callback has run (the only public signal); detection latency is measured from the black-hole call to that callback",
 		"black-hole = loopback TCP relay that keeps both TCP connections open and forwards nothing in the chosen direction(s) on existing and new connections, not even the other end's FIN/RST",
@@ -1121,6 +1161,11 @@ func main() {
 		for _, mode := range []string{"polling", "websocket", "upgraded"} {
 			for _, tr := range traffics {
 				specs = append(specs, &spec{kind: "live", mode: mode, traffic: tr, pi: c.pi, pt: c.pt, jit: rnd.Float64()})
+			}
+		}
+		if c.pi == time.Second {
+			for ph := 0; ph <= 6; ph++ {
+				specs = append(specs, &spec{kind: "live", mode: "upgrading", traffic: "swap-stream", pi: c.pi, pt: c.pt, phase: ph, jit: rnd.Float64()})
 			}
 		}
 	}
